@@ -75,7 +75,7 @@ def run(prop, tier, seed):
     quick = tier == "quick"
     n = 220 if quick else 5000
     cases = templates()
-    for _ in range(max(40, n // 3)):
+    for _ in range(max(150, n // 2)):
         cases.append(("scripted", S.scripted(rng, with_read=rng.random() < 0.3)))
     for _ in range(n):
         cmds = G.gen_program(rng)
